@@ -64,6 +64,9 @@ func CreatePodFromDaemonSetReplicaSet(scheme *runtime.Scheme, replicaset *datado
 	if node != nil {
 		if addNodeAffinity {
 			pod.Spec.Affinity = affinity.ReplaceNodeNameNodeAffinity(pod.Spec.Affinity, node.Name)
+			// the scheduler binds the pod through this affinity: a node name carried by the template itself
+			// (e.g. copied from a running pod) would bind it to another node
+			pod.Spec.NodeName = ""
 		} else {
 			pod.Spec.NodeName = node.Name
 		}
